@@ -194,7 +194,10 @@ func Version(version string) OptionFn {
 // registered to all incoming connections.
 func ExtendTypes(fn func(*pgtype.Map)) OptionFn {
 	return func(srv *Server) error {
-		fn(srv.types)
+		// NOTE: a type map memoises encode and scan plans and is not safe for
+		// concurrent use. Every connection receives its own type map on which
+		// the registered extensions are applied.
+		srv.typeExtensions = append(srv.typeExtensions, fn)
 		return nil
 	}
 }
